@@ -309,6 +309,15 @@ where
             }
         };
 
+        // The invoice has to be for the payment hash of this htlc. Paying an
+        // invoice with another payment hash yields a preimage that cannot
+        // settle this htlc.
+        if AsRef::<[u8]>::as_ref(invoice.payment_hash()) != req.htlc.payment_hash.as_slice() {
+            return Err(anyhow!(
+                "trampoline invoice payment hash does not match htlc payment hash"
+            ));
+        }
+
         // For now invoices need to have a valid signature, because the `pay`
         // command requires invoices to have a valid signature. Once we move away
         // from the `pay` command, we can remove this check. (note that when
